@@ -7,7 +7,7 @@ From PK Require Export Session.Hex Session.Framing Session.Session.
 Open Scope Z_scope.
 
 Record observed_step := {
-  o_sent : list string;             (* hex of every sendall during this frame *)
+  o_sent : list packed;             (* every sendall during this frame *)
   o_call : option identity;         (* credential passed to process_request, if it was entered *)
   o_ncalls : Z;                     (* number of process_request calls during this frame *)
   o_escaped : bool;                 (* an exception other than ConnectionClosed left _handle_message_loop *)
@@ -15,16 +15,16 @@ Record observed_step := {
 }.
 
 Inductive keresult :=
-| KResp (enc : option string) (max : option Z) (ver : Z * Z)
+| KResp (enc : option packed) (max : option Z) (ver : Z * Z)
 | KKmipErr (reason : Z) (msg : list Z)        (* code points of str(e) *)
 | KCrash.
 
 Record kcase := {
-  k_chunks : list string;                   (* hex of each scripted chunk *)
+  k_chunks : list packed;                   (* each scripted chunk *)
   k_cfg : cfg;
   k_parse : list (option (Z * Z));          (* per frame: the real parser's verdict (version of the request) *)
   k_engine : list keresult;                 (* per process_request call, in order *)
-  k_frames : list string;                   (* hex of each frame the session handed to the parser *)
+  k_frames : list packed;                   (* each frame the session handed to the parser *)
   k_asked : list Z;                         (* the sizes asked of recv, whole connection *)
   k_closed : bool;                          (* the loop ended with ConnectionClosed *)
   k_steps : list observed_step
